@@ -123,6 +123,29 @@ def check_models(repo, chk, tier):
         want = 1 / (m0 ** 2 - m ** 2 + sign * sp.I * m0 * (ga * qa / m + gb * qb / m))
         oblige("model %s (default im_sign=%+d): get_amp == 1/(m0^2-m^2 %s i m0 sum g_i q_i/m)" % (name, dflt, "+" if sign > 0 else "-"), v, want, fn.key, name, FL)
 
+    # the channel momentum itself, on both sides of the threshold and of the pseudo-threshold: the documented case
+    # split is on the sign of P = (m^2-(ma+mb)^2)(m^2-(ma-mb)^2) - real q for P > 0 (also below |ma-mb|), i|q| for P < 0
+    cm = repo.fn(FL + "::cal_monentum")
+    R_ = sp.Rational
+    pts = [(R_(3, 2), "above the threshold"), (R_(1), "between pseudo-threshold and threshold"), (R_(4, 5), "below the pseudo-threshold"), (R_(1, 2), "below the pseudo-threshold")]
+    tr_c = Translator(repo, where_policy=lambda cond, t: None, max_depth=2)
+    for mv, where in pts:
+        a_, b_ = R_(1), R_(1, 10)
+        try:
+            got = sp.sympify(tr_c.call_fn(cm, [mv, a_, b_]))
+        except Unmodelled as e:
+            raise AnalysisError("cal_monentum cannot be evaluated at m=%s: %s" % (mv, e))
+        P = (mv ** 2 - (a_ + b_) ** 2) * (mv ** 2 - (a_ - b_) ** 2)
+        want_q = sp.sqrt(sp.Abs(P)) / (2 * mv) * (1 if P > 0 else sp.I)
+        oblige("cal_monentum(m=%s; 1, 1/10) %s: q = %s sqrt|P|/(2m)" % (mv, where, "" if P > 0 else "i"), got, want_q, cm.key, "flatte-q:%s" % mv, FL)
+        cms = repo.fn_opt(FL + "::cal_monentum_sympy")
+        if cms is not None:
+            try:
+                got_s = sp.sympify(tr_c.call_fn(cms, [mv, a_, b_]))
+            except Unmodelled as e:
+                raise AnalysisError("cal_monentum_sympy cannot be evaluated at m=%s: %s" % (mv, e))
+            oblige("cal_monentum_sympy(m=%s; 1, 1/10) == cal_monentum (the pole search uses the same momentum as the fit)" % mv, got_s, want_q, cms.key, "flatte-q-sym:%s" % mv, FL)
+
     # BWR_LS: partial-width mixing.  R_i = g_i/(m0^2 - m^2 - i m0 g0 (rho/rho0) sum g_i^2), rho = 2q/m
     th = sp.Symbol("theta0", real=True)
     ls_list = [(sp.Integer(0), sp.Integer(1)), (sp.Integer(2), sp.Integer(1))]
